@@ -589,3 +589,94 @@ func TestVerif_C12_RaceStress(t *testing.T) {
 	veriflib.Record("C12/race-stress", fmt.Sprintf("rounds=%d shard=%d", done, veriflib.ShardIndex()), true, []string{fmt.Sprintf("rounds:%d", done)}, func() any { return map[string]any{"rounds": done} })
 	veriflib.Record("C12/race-stress", fmt.Sprintf("rounds=%d shard=%d b", done, veriflib.ShardIndex()), true, nil, nil)
 }
+
+// Capacity: "the input buffer holds as many seeds as there are tokens, which is what makes a feedback (and the hand-over
+// of an accepted insert) non-blocking" - for every token count, not just small ones. With nobody reading the output,
+// exactly <tokens> inserts must be accepted without one of them blocking, the next one must wait for a token, and after
+// some seeds were taken out, feeding all of them back must not block either.
+func TestVerif_C12_Capacity(t *testing.T) {
+	defer veriflib.Flush()
+	if veriflib.Replaying() {
+		var rc c12Case
+		if !veriflib.ReplayCase("C12/capacity", &rc) {
+			t.Skip()
+		}
+	}
+	verifcfg.Quiet()
+	sizes := []int{1, 2, 3, 64, 1000, 4096, 8191, 8192, 8193, 10000, 20000, 70000}
+	sizes = append(sizes, 1+int(veriflib.Hash(fmt.Sprint("c12cap", veriflib.Seed(), veriflib.ShardIndex()))%100000))
+	for _, tokens := range sizes {
+		c := c12Case{Tokens: tokens}
+		viol := ""
+		veriflib.Bubble(t, "C12", "C12/capacity", c, func(st *testing.T) {
+			out := make(chan *models.Item)
+			if err := Start(tokens, out); err != nil {
+				viol = err.Error()
+				return
+			}
+			defer Stop()
+			// (a blocked call may keep the bubble from ending: the verdict is written out before leaving it)
+			defer func() {
+				if viol != "" {
+					veriflib.WriteFailure("C12", "C12/capacity", c, nil, viol)
+				}
+			}()
+			items := make([]*models.Item, tokens)
+			accepted := make(chan int, tokens+1)
+			for i := range items {
+				items[i] = c12NewSeed(fmt.Sprintf("cap%d", i))
+			}
+			go func() {
+				for i, it := range items {
+					if err := ReceiveInsert(it); err != nil {
+						accepted <- -1 - i
+						return
+					}
+					accepted <- i
+				}
+			}()
+			synctest.Wait()
+			if n := len(accepted); n != tokens {
+				viol = fmt.Sprintf("%d tokens, nobody reading the output: only %d of the %d inserts returned, insert #%d is blocked although %d token(s) are free (%d seeds tracked)",
+					tokens, n, tokens, n+1, tokens-len(globalReactor.tokenPool), len(GetStateTable()))
+				return
+			}
+			extra := make(chan error, 1)
+			go func() { extra <- ReceiveInsert(c12NewSeed("cap-extra")) }()
+			synctest.Wait()
+			select {
+			case err := <-extra:
+				viol = fmt.Sprintf("%d tokens all in use: one more insert returned %v instead of waiting for a token", tokens, err)
+				return
+			default:
+			}
+			// take up to 50 seeds out and feed every one of them back: none of the feedbacks may block
+			take := min(tokens, 50)
+			var got []*models.Item
+			for i := 0; i < take; i++ {
+				got = append(got, <-out)
+			}
+			fed := make(chan error, take)
+			go func() {
+				for _, it := range got {
+					fed <- ReceiveFeedback(it)
+				}
+			}()
+			synctest.Wait()
+			if len(fed) != take {
+				viol = fmt.Sprintf("%d tokens: %d seeds taken from the output, but only %d of their feedbacks returned: a feedback blocks", tokens, take, len(fed))
+				return
+			}
+			for i := 0; i < take; i++ {
+				if err := <-fed; err != nil {
+					viol = fmt.Sprintf("%d tokens: feedback of a tracked seed returned %v", tokens, err)
+					return
+				}
+			}
+		})
+		if viol != "" {
+			veriflib.Fail(t, "C12", "C12/capacity", c, nil, "%s", viol)
+		}
+		veriflib.Record("C12/capacity", fmt.Sprintf("tokens=%d", tokens), tokens > 1, []string{fmt.Sprintf("tokens:10^%d", len(fmt.Sprint(tokens))-1)}, func() any { return c })
+	}
+}
